@@ -1,6 +1,7 @@
 '''Dag harness (C09): runs the REAL dawgie.pl.dag.Construct on engines
 materialised from TLC's programs and records what can be observed of the
-derived graphs, one ndjson line per program.
+derived graphs, one ndjson line per program (two steps: the factories in
+package order and in reverse order).
 
 A program (spec/Dag.tla) is projected to an engine descriptor (vlib/engine.py),
 executed into in-memory modules, and handed to dag.Construct exactly as the
@@ -19,6 +20,7 @@ usage: python -m harness.dag_h <jobs.json> <out.ndjson>
 import json
 import logging
 import os
+import signal
 import sys
 import warnings
 
@@ -82,9 +84,12 @@ def objects(roots):
 def iter_tags(roots):
     '''tags met by Node.iter from every root (what schedule.tasks() does)'''
     tags = set()
-    for r in roots:
-        for e in r.iter():
-            tags.add(e.tag)
+    try:
+        for r in roots:
+            for e in r.iter():
+                tags.add(e.tag)
+    except RecursionError:  # Node.iter does not come back (a cyclic tree): nothing is reached
+        return []
     return sorted(tags)
 
 
@@ -112,9 +117,12 @@ def observe(c, prog):
     located = []
     for tag in sorted({n.tag for n in objs} | set(prog['kind'])):
         found = {}
-        for r in at:
-            for n in r.locate(tag):
-                found[id(n)] = n
+        try:
+            for r in at:
+                for n in r.locate(tag):
+                    found[id(n)] = n
+        except RecursionError:  # Node.locate does not come back: the scheduler cannot find the node
+            found = {}
         located.append({'tag': tag, 'n': len(found)})
     fed = [{'v': str(k), 'to': str(v), 'alg': '.'.join(str(v).split('.')[:2])} for k, v in sorted(c.feedbacks.items())]
     return {
@@ -129,24 +137,49 @@ def observe(c, prog):
     }
 
 
+class Timeout(BaseException):
+    pass
+
+
+def _alarm(_signum, _frame):
+    raise Timeout()
+
+
+LIMIT = [float(os.environ.get('VERIF_C09_LIMIT', '30'))]  # seconds for one Construct (it takes milliseconds); shorter after the first expiry
+
 BLANK = {'ok': False, 'err': '', 'nodes': [], 'iter': [], 'located': [], 'svt': [], 'tt': [], 'vt': [], 'fed': []}
 
 
-def run_job(job):
-    prog = job['prog']
-    desc = prog_to_desc(prog)
-    facs = engine.load(desc)
+def construct(facs, prog):
     obs = dict(BLANK)
     c = None
+    signal.setitimer(signal.ITIMER_REAL, LIMIT[0])
     try:
         c = dag.Construct(facs)
+    except Timeout:  # a Construct that does not return is an observation too
+        obs['err'] = f'Timeout: no return within {LIMIT[0]:.0f} s'
+        LIMIT[0] = min(LIMIT[0], 5.0)
     except RecursionError:
         obs['err'] = 'RecursionError'
     except Exception as ex:  # noqa: BLE001 -- a Construct that raises is an observation (clause C09.Constructs)
         obs['err'] = f'{type(ex).__name__}: {ex}'[:200]
+    finally:
+        signal.setitimer(signal.ITIMER_REAL, 0)
     if c is not None:
         obs.update(observe(c, prog), ok=True)
-    return {'tid': job['id'], 'prog': prog, 'steps': [{'ev': 'construct', 'obs': obs}]}
+    return obs
+
+
+def run_job(job):
+    # two Constructs per program: the factories in package order and in reverse package order
+    # (another insertion order of _flat, another order of the child lists)
+    prog = job['prog']
+    desc = prog_to_desc(prog)
+    facs = engine.load(desc)
+    steps = [{'ev': 'construct', 'obs': construct(facs, prog)}]
+    rev = {k: list(reversed(v)) for k, v in facs.items()}
+    steps.append({'ev': 'construct-reversed', 'obs': construct(rev, prog)})
+    return {'tid': job['id'], 'prog': prog, 'steps': steps}
 
 
 # --------------------------------------------------------------------------
@@ -206,17 +239,22 @@ def apply_mutant(name):
 
         dawgie.util.refs.as_vref = as_vref
         dawgie.util.as_vref = as_vref
-    elif name == 'trim_no_revisit_union':  # ancestry of the short node taken from its first visitor only
-        orig = dag.Node.trim
-
+    elif name == 'trim_first_visitor':  # only the first value node visiting a short node contributes its children
         def trim(self, known, length):
-            short = known[C.trim(self.tag, length)]
-            before = short.get('ancestry')
-            res = orig(self, known, length)
-            if length == 2 and before:
-                short.set('ancestry', before)
-            return res
+            short_node = known[C.trim(self.tag, length)]
+            first = not short_node.get('visitors')
+            saved = list(self)
+            if not first:
+                for ch in saved:
+                    self.remove(ch)
+            try:
+                return ORIG_TRIM(self, known, length)
+            finally:
+                if not first:
+                    for ch in saved:
+                        self.append(ch)
 
+        ORIG_TRIM = dag.Node.trim
         dag.Node.trim = trim
     elif name == 'roots_first_value':  # only the first value of an input-less algorithm becomes a root
         orig = C._trim_trees
@@ -244,6 +282,7 @@ def main(argv):
     logging.disable(logging.CRITICAL)
     warnings.simplefilter('ignore')
     apply_mutant(os.environ.get('VERIF_C09_MUTANT', ''))
+    signal.signal(signal.SIGALRM, _alarm)
     with open(outp, 'wt') as out:
         for job in jobs:
             out.write(json.dumps(run_job(job), sort_keys=True) + '\n')
